@@ -276,7 +276,7 @@ impl IggyProducer {
 
         if self.can_send_immediately {
             return self
-                .send_immediately(&self.stream_id, &self.topic_id, messages, partitioning)
+                .send_immediately(&stream, &topic, messages, partitioning)
                 .await;
         }
 
@@ -312,7 +312,7 @@ impl IggyProducer {
             );
             self.last_sent_at
                 .store(IggyTimestamp::now().into(), ORDERING);
-            self.try_send_messages(&self.stream_id, &self.topic_id, &partitioning, batch)
+            self.try_send_messages(&stream, &topic, &partitioning, batch)
                 .await?;
             trace!("Sent {messages_count} messages ({current_batch}/{batches_count} batch(es)).");
             current_batch += 1;
